@@ -82,7 +82,10 @@ def t_avail(symbols, open_mask):
     return t
 
 
-def mk_order(h, side, q, p, ro, symbol='BTC-USDT', kind='LIMIT'):
+def mk_order(h, side, q, p, ro, symbol='BTC-USDT', kind=None):
+    if kind is None:
+        # the order type is a finite enumeration: every obligation is proved for LIMIT, STOP and (pending) MARKET orders
+        kind = 'LIMIT' if h.branch(h.bool('is_limit')) else ('STOP' if h.branch(h.bool('is_stop')) else 'MARKET')
     return common.mk_order(h, side=side, type=kind, qty=q, price=p, symbol=symbol, exchange='Sandbox', reduce_only=ro,
                            status='ACTIVE')
 
